@@ -147,10 +147,26 @@ impl<'a> Gen<'a> {
             (ts.join(", "), Goal::OperatorGoal(Operator::And(gs)))
         };
         if shape < 3 { return self.subgoal(0); }
-        if shape < 7 { return conj(self); }
+        if shape < 6 { return conj(self); }
+        if shape == 6 { let d = 1 + self.r.below(3); let or = self.r.chance(1, 2); return self.nested(d, or); }
         let n = 2 + self.r.below(2); let mut ts = vec![]; let mut gs = vec![];
         for _ in 0..n { let (t, x) = if self.r.chance(1, 2) { conj(self) } else { self.subgoal(0) }; ts.push(t); gs.push(x); }
         (ts.join("; "), Goal::OperatorGoal(Operator::Or(gs)))
+    }
+
+    /// operators nested to depth `d`, in the canonical text of the printer: a nested operand is written
+    /// between parentheses, except a conjunction inside a disjunction
+    pub fn nested(&mut self, d: usize, or: bool) -> (String, Goal) {
+        let n = 2 + self.r.below(2); let mut ts = vec![]; let mut gs = vec![];
+        for _ in 0..n {
+            if d > 0 && self.r.chance(1, 2) {
+                let inner_or = self.r.chance(1, 2);
+                let (t, g) = self.nested(d - 1, inner_or);
+                ts.push(if or && !inner_or { t } else { format!("({})", t) });
+                gs.push(g);
+            } else { let (t, x) = self.subgoal(0); ts.push(t); gs.push(x); }
+        }
+        if or { (ts.join("; "), Goal::OperatorGoal(Operator::Or(gs))) } else { (ts.join(", "), Goal::OperatorGoal(Operator::And(gs))) }
     }
 
     pub fn rule(&mut self) -> (String, Rule) {
@@ -249,6 +265,15 @@ pub fn run_spellings(out: &mut Out, cfg: &Cfg, seed: u64, n: usize) {
                 let ar = *r.pick(&[("+", "add"), ("-", "subtract"), ("*", "multiply"), ("/", "divide")]);
                 emit_spelling(out, cfg, "term", &format!("{} {} {}", v, ar.0, k), Parsed::Term(Unifiable::SFunction{name: ar.1.into(), terms: vec![logic_var!(v), SInteger(k)]}));
             },
+            7 if i % 32 == 15 => {
+                // bounded time: groups nested inside groups, 30 deep (about 190 characters)
+                let pat = r.below(4);
+                let d = 24 + r.below(8) as usize;
+                let mut g = String::from("(x)");
+                for _ in 0..d { g = match pat { 0 => format!("({},(x))", g), 1 => format!("((x),{})", g), 2 => format!("({};(y),(x))", g), _ => format!("((y);{},(x))", g) }; }
+                emit_timed(out, cfg, "goal", &g);
+                emit_timed(out, cfg, "rule", &format!("h :- {}.", g));
+            },
             7 if i % 16 == 7 => {
                 // parenthesised groups, also nested inside each other (documented: parentheses group goals)
                 let a = || Goal::ComplexGoal(Unifiable::SComplex(vec![atom!("a")]));
@@ -261,9 +286,9 @@ pub fn run_spellings(out: &mut Out, cfg: &Cfg, seed: u64, n: usize) {
                     0 => emit_spelling(out, cfg, "goal", "(a; b), c", Parsed::Goal(and(vec![or(vec![a(), b()]), c()]))),
                     1 => emit_spelling(out, cfg, "goal", "a, (b; c)", Parsed::Goal(and(vec![a(), or(vec![b(), c()])]))),
                     2 => emit_spelling(out, cfg, "goal", "(a, b); (c, d)", Parsed::Goal(or(vec![and(vec![a(), b()]), and(vec![c(), d()])]))),
-                    3 => emit_nested(out, cfg, "a, (b, (c; d))", Parsed::Goal(and(vec![a(), and(vec![b(), or(vec![c(), d()])])]))),
-                    4 => emit_nested(out, cfg, "((a; b), c); d", Parsed::Goal(or(vec![and(vec![or(vec![a(), b()]), c()]), d()]))),
-                    _ => emit_nested(out, cfg, "a; (b, (c; d))", Parsed::Goal(or(vec![a(), and(vec![b(), or(vec![c(), d()])])]))),
+                    3 => emit_spelling(out, cfg, "goal", "a, (b, (c; d))", Parsed::Goal(and(vec![a(), and(vec![b(), or(vec![c(), d()])])]))),
+                    4 => emit_spelling(out, cfg, "goal", "(a; b), c; d", Parsed::Goal(or(vec![and(vec![or(vec![a(), b()]), c()]), d()]))),
+                    _ => emit_spelling(out, cfg, "goal", "a; b, (c; d)", Parsed::Goal(or(vec![a(), and(vec![b(), or(vec![c(), d()])])]))),
                 }
             },
             _ => {
@@ -278,15 +303,20 @@ pub fn run_spellings(out: &mut Out, cfg: &Cfg, seed: u64, n: usize) {
     }
 }
 
-/// a goal with a parenthesised group inside a parenthesised group
-fn emit_nested(out: &mut Out, cfg: &Cfg, s: &str, want: Parsed) {
+/// a parse that must come back within a second (property C18: bounded time)
+fn emit_timed(out: &mut Out, cfg: &Cfg, entry: &str, s: &str) {
     if !out.begin() { return; }
-    let id = out.case(&format!("parse goal {}", hex(s)));
-    let p = run_entry("goal", s);
+    let id = out.case(&format!("parse {} {}", entry, hex(s)));
+    let t0 = std::time::Instant::now();
+    let p = run_entry(entry, s);
+    let ms = t0.elapsed().as_millis();
     let printed = match &p { Parsed::Err | Parsed::Panic => String::new(), _ => match show(&p) { Some(t) => format!(" P {}", hex(&t)), None => " P panic".to_string() } };
     out.impl_line(id, &format!("{}{}", dump(&p), printed));
-    if cfg.want("C18") { out.oracle(id, "C18", p != Parsed::Panic, &format!("generate_goal panicked on `{}`", s)); }
-    if cfg.want("C19") { out.oracle(id, "C19", dump(&p) == dump(&want), &format!("nested parenthesised groups: `{}` parses to a different goal than the one it denotes", s)); }
+    out.stat("timed_parse", 1);
+    if cfg.want("C18") {
+        out.oracle(id, "C18", p != Parsed::Panic, &format!("parse_{} panicked on `{}`", entry, s));
+        out.oracle(id, "C18", ms < 1000, &format!("parse_{} needed {} ms for the {} characters of `{}` (the time doubles with every level of nesting)", entry, ms, s.chars().count(), s));
+    }
 }
 
 fn emit_spelling(out: &mut Out, cfg: &Cfg, entry: &str, s: &str, want: Parsed) {
